@@ -15,9 +15,9 @@ from .facts import AnalysisBroken, const_val, walk, strip_casts
 
 
 class Node:
-    __slots__ = ('id', 'kind', 'expr', 'decl', 'stmt', 'line', 'name')
+    __slots__ = ('id', 'kind', 'expr', 'decl', 'stmt', 'line', 'name', 'skip')
 
-    def __init__(self, nid, kind, expr=None, decl=None, stmt=None, line=0, name=None):
+    def __init__(self, nid, kind, expr=None, decl=None, stmt=None, line=0, name=None, skip=None):
         self.id = nid
         self.kind = kind
         self.expr = expr
@@ -25,6 +25,7 @@ class Node:
         self.stmt = stmt
         self.line = line
         self.name = name
+        self.skip = skip or frozenset()   # ids of sub-expressions already evaluated by preceding branch nodes
 
     def __repr__(self):
         return 'N%d:%s@%d' % (self.id, self.kind, self.line)
@@ -223,9 +224,66 @@ class _Builder:
             if v != 0:
                 return [(n, None)], []
             return [], [(n, None)]
-        n = self.g.new('branch', expr=e, line=self.line(e))
+        preds, skip = self.lower_values(e, preds)
+        n = self.g.new('branch', expr=e, line=self.line(e), skip=skip)
         self.g.connect(preds, n)
         return [(n, ('T', e))], [(n, ('F', e))]
+
+    # value-context short-circuit expressions -----------------------------------------
+    def _needs_lowering(self, e):
+        """top-most `a && b`, `a || b`, `c ? x : y` sub-expressions whose later operands read memory or call."""
+        out = []
+
+        def impure(x):
+            for y in walk(x):
+                k = y.get('k')
+                if k in ('call', 'idx'):
+                    return True
+                if k == 'un' and y['op'] in ('*', 'post++', 'post--', 'pre++', 'pre--'):
+                    return True
+                if k == 'mem' and y.get('arrow'):
+                    return True
+                if k == 'bin' and y['op'] in ('=', '+=', '-=', '*=', '/=', '|=', '&=', '^=', '<<=', '>>=', '%='):
+                    return True
+            return False
+
+        def visit(x):
+            k = x.get('k')
+            if k == 'bin' and x['op'] in ('&&', '||') and impure(x['r']):
+                out.append(x)
+                return
+            if k == 'cond' and (impure(x['t']) or impure(x['e'])):
+                # only lowered when both arms are themselves conditions-free values we can evaluate as statements
+                out.append(x)
+                return
+            from .facts import children
+            for c in children(x):
+                if c.get('k') in ('compound', 'if', 'while', 'do', 'for', 'switch'):
+                    continue
+                visit(c)
+        visit(e)
+        return out
+
+    def lower_values(self, e, preds):
+        """Evaluate the short-circuit sub-expressions of e through branch nodes; returns (preds', skip ids)."""
+        skip = set()
+        for sub in self._needs_lowering(e):
+            if sub.get('k') == 'cond':
+                t, f = self.cond(sub['c'], preds)
+                ta = self.g.new('stmt', expr=sub['t'], line=self.line(sub['t']), name='cond-arm')
+                self.g.connect(t, ta)
+                fa = self.g.new('stmt', expr=sub['e'], line=self.line(sub['e']), name='cond-arm')
+                self.g.connect(f, fa)
+                j = self.g.new('nop', line=self.line(sub), name='value-join')
+                self.g.edge(ta, j)
+                self.g.edge(fa, j)
+            else:
+                t, f = self.cond(sub, preds)
+                j = self.g.new('nop', line=self.line(sub), name='value-join')
+                self.g.connect(t + f, j)
+            preds = [(j, None)]
+            skip.add(sub['id'])
+        return preds, frozenset(skip)
 
     # statements -------------------------------------------------------------------
     def stmt(self, s, preds, ctx):
@@ -238,7 +296,10 @@ class _Builder:
             return preds
         if k == 'decl':
             for d in s['decls']:
-                n = g.new('decl', decl=d, line=d['loc'][0], stmt=s)
+                skip = frozenset()
+                if 'init' in d:
+                    preds, skip = self.lower_values(d['init'], preds)
+                n = g.new('decl', decl=d, line=d['loc'][0], stmt=s, skip=skip)
                 g.connect(preds, n)
                 preds = [(n, None)]
             return preds
@@ -329,7 +390,10 @@ class _Builder:
             g.connect(preds, ctx['cont'])
             return []
         if k == 'return':
-            n = g.new('return', expr=s.get('e'), line=self.line(s), stmt=s)
+            skip = frozenset()
+            if 'e' in s:
+                preds, skip = self.lower_values(s['e'], preds)
+            n = g.new('return', expr=s.get('e'), line=self.line(s), stmt=s, skip=skip)
             g.connect(preds, n)
             g.edge(n, g.exit)
             return []
@@ -354,7 +418,8 @@ class _Builder:
         if e.get('k') == 'bin' and e['op'] == ',':
             preds = self.stmt(e['l'], preds, ctx)
             return self.stmt(e['r'], preds, ctx)
-        n = g.new('stmt', expr=e, line=self.line(e), stmt=s)
+        preds, skip = self.lower_values(e, preds)
+        n = g.new('stmt', expr=e, line=self.line(e), stmt=s, skip=skip)
         g.connect(preds, n)
         return [(n, None)]
 
